@@ -136,11 +136,8 @@ Definition implicit_vector (md : module) (c : conns) (locals : list ident) : lis
   | CNamed l => flat_map (fun pe => match snd pe with Some e => check (fst pe) e | None => [] end) l
   end.
 
-Fixpoint lint_items (fuel : nat) (locals : list ident) (its : list item) : list lint_error :=
-  match fuel with
-  | O => []
-  | S f =>
-      flat_map (fun it =>
+(* one item; [rec] lints the items nested in a generate block *)
+Definition lint_item (rec : list ident -> list item -> list lint_error) (locals : list ident) (it : item) : list lint_error :=
         match it with
         | IDecl d =>
             undeclared_in (match d_range d with Some (a, b) => expr_ids a ++ expr_ids b | None => [] end ++
@@ -174,13 +171,18 @@ Fixpoint lint_items (fuel : nat) (locals : list ident) (its : list item) : list 
                 end
             | None => if mem mn external then [] else [LUndefinedModule (m_name m) inst mn]
             end
-        | IGen its' => lint_items f locals its'
-        | IGenFor v es its' => undeclared_in (flat_map expr_ids es) (v :: locals) ++ lint_items f (v :: locals) its'
+        | IGen its' => rec locals its'
+        | IGenFor v es its' => undeclared_in (flat_map expr_ids es) (v :: locals) ++ rec (v :: locals) its'
         | IFunc name decls body =>
             let loc := name :: map d_name decls ++ locals in
             undeclared_in (flat_map stmt_reads body ++ flat_map stmt_writes body) loc
         | IOther => []
-        end) its
+        end.
+
+Fixpoint lint_items (fuel : nat) (locals : list ident) (its : list item) : list lint_error :=
+  match fuel with
+  | O => []
+  | S f => flat_map (lint_item (lint_items f) locals) its
   end.
 
 (* every always block's written variables; a variable written by two blocks has two drivers *)
